@@ -53,3 +53,11 @@ class KlassB(object):
     def who(self):
         CALLS.append(("KlassB", "who"))
         return "class:KlassB"
+
+
+class NoWeak(int):
+    """an object that cannot be weakly referenced (instances of int subclasses cannot): registering it with weak=True must fail - and change nothing"""
+
+    def who(self):
+        CALLS.append(("NoWeak", "who"))
+        return "noweak"
